@@ -92,12 +92,11 @@ def _gen_sq4(w, rng):
         return None
     steps = base.tag["steps"]
     k = rng.randint(1, tag["T"] - 1)
-    Lmax = float(base.value.snapshots[0].boxlength.max())
-    import numpy as np
-    numofq = rng.choice([3, 4])
     a = op["args"]
     a["t"] = (steps[1] - steps[0]) * tag["dt"] * k
-    a["qrange"] = round((numofq + 0.5) * np.pi / Lmax, 6)
+    # the same few wave-number ranges for every trajectory (as a user would): what a range
+    # means depends on the box, so calls on different boxes collide on equal scalar arguments
+    a["qrange"] = rng.choice([2.0, 2.5, 3.0] if base.tag["ndim"] == 3 else [2.0, 3.0, 4.0])
     if rng.random() < 0.4:
         c = conds(w, tag["snaps"], ("TN",), ("bool",))
         if c:
